@@ -9,7 +9,7 @@
     reloaded at an arbitrary later instant and listed again: same events, same order, minus those older than the retention; and
     expireOldEvents drops exactly the entries older than the retention.
 """
-import time, z3, re
+import time, z3, re, itertools
 from symx.check import run_check, term, model_dict
 from symx.engine import *
 from symx.harness import *
@@ -211,11 +211,42 @@ def ob_history(chk, ir, K):
                 vals = ex.slice_values(p, sl[-1]) if sl else []
                 outl.append((p, mp, vals))
             return outl
+        # 1c. expiry: expireOldEvents at clock t(k) drops exactly the entries older than the retention (listing compared with the recorded instants)
+        for s in cur:
+            s4 = s.fork(); s4.status = 'run'; s4.frames = []; s4.aux['clk'] = k
+            pe = ex.run(exp, [sr], s4); total += len(pe)
+            for p4 in pe:
+                if p4.status != 'returned': chk.obligation('history', f'k={k}', 'inconclusive', f'expireOldEvents: {p4.result}'); return
+                l4 = listing(p4.fork(), sr)
+                if l4 is None: chk.obligation('history', f'k={k}', 'inconclusive', 'listing after expiry failed'); return
+                ci0 = ir.field_index(ET, 'CreateTime'); mint = times[k] - MONTH_S
+                for p5, _, kept in l4:
+                    ncmp += 1
+                    for pattern in itertools.product([True, False], repeat=k):
+                        cond = z3.And([z3.UGE(times[i], mint) if b else z3.ULT(times[i], mint) for i, b in enumerate(pattern)])
+                        if not ex.feasible(p5.pc, cond): continue
+                        want = [times[i] for i in reversed(range(k)) if pattern[i]]
+                        ok5 = len(kept) == len(want) and not ex.feasible(list(p5.pc) + [cond], z3.Not(z3.And([ex.field(p5, e, ci0) == w_ for e, w_ in zip(kept, want)] + [z3.BoolVal(True)])))
+                        if not ok5:
+                            res = chk.violation('history-survives-restart', f'expireOldEvents k={k}', f'after expiry at an arbitrary later instant the history holds {len(kept)} events where {len(want)} are younger than the retention (or not those)', {'kept_pattern': pattern})
+                            if res == 'new': verdict = 'violated'
+                            elif verdict == 'holds': verdict = 'known'
+                            break
         for s in cur:
             l1 = listing(s, sr)
             if l1 is None: chk.obligation('history', f'k={k}', 'inconclusive', 'listing failed'); return
             for p1, saved_map, before in l1:
                 total += 1
+                # 1b. the listing itself is faithful: when all k events lie within the retention, it holds exactly the k recorded events in
+                #     newest-first order (compared with the instants that were fed in, not with another run of the lister)
+                ci0 = ir.field_index(ET, 'CreateTime')
+                within = z3.ULT(times[k - 1] - times[0], MONTH_S) if k > 1 else z3.BoolVal(True)
+                if ex.feasible(p1.pc, within):
+                    okl = len(before) == k and not ex.feasible(list(p1.pc) + [within], z3.Not(z3.And([ex.field(p1, e, ci0) == times[k - 1 - i] for i, e in enumerate(before)])))      # the listing is newest first
+                    if not okl:
+                        res = chk.violation('history-survives-restart', f'getEventsList k={k}', f'the listing of {k} events recorded within the retention holds {len(before)} events or not the recorded instants (newest first)', {'recorded': k, 'listed': len(before)})
+                        if res == 'new': verdict = 'violated'
+                        elif verdict == 'holds': verdict = 'known'
                 # 2. reload at clock t(k)  (gob save/load = identity on the saved map)
                 H.stub('os.Open', lambda ex_, st_, a, ins: (Ptr(st_.alloc(Opaque('file'))), nilerr()))
                 H.stub('bufio.NewReader', lambda ex_, st_, a, ins: Ptr(st_.alloc(Opaque('reader'))))
@@ -241,7 +272,7 @@ def ob_history(chk, ir, K):
                         keep = [ex.field(p3, e, ci) >= 0 for e in before]
                         keepc = [z3.UGE(ex.field(p3, e, ci), mint) for e in before]
                         # compare as sequences under every keep-pattern: z3 decides element-wise
-                        import itertools
+
                         for pattern in itertools.product([True, False], repeat=len(before)):
                             cond = z3.And([kc if b else z3.Not(kc) for kc, b in zip(keepc, pattern)]) if before else z3.BoolVal(True)
                             if not ex.feasible(p3.pc, cond): continue
